@@ -19,6 +19,12 @@ func (te *tableEngine) tableGameOpen() error {
 		return nil
 	}
 
+	// the table was closed or released after the open-game gate had been armed
+	if te.isReleased || te.table.State.Status == TableStateStatus_TableClosed {
+		fmt.Printf("[DEBUG#tableGameOpen] Table (%s) is closed or released, game is not opened.\n", te.table.ID)
+		return nil
+	}
+
 	// 開局
 	newTable, err := te.openGame(te.table)
 
